@@ -34,10 +34,12 @@ the Go code, and
                   on a fuel budget that a chain of references in an adversarial storage can exhaust in one order only)
 
   mark_parallel_eq_sequential   on a branch root the two strategies report the same error and, when marking succeeds, leave
-                  the same marked trie
-  getPath_strategy_irrelevant   so `getPath` returns what the purely sequential `getPathSeq` returns — always the same
-                  result, and on success the same trie state — whatever the threshold is: `export_import` and `C12`
-                  are statements about `getPath` itself and hold for every number of keys
+                  the same marked trie — for NON-EMPTY keys (hypothesis `∀ k ∈ keys, k ≠ []`; the keys of GetPath are
+                  32-byte keys, 64 nibbles): an empty key is marked at the branch root by the sequential walk, while the
+                  per-branch loop, which takes `k[0]`, panics on it
+  getPath_strategy_irrelevant   so, for non-empty keys, `getPath` returns what the purely sequential `getPathSeq` returns —
+                  always the same result, and on success the same trie state — whatever the threshold is:
+                  `export_import` and `C12` are statements about `getPath` itself and hold for every number of keys
 -/
 import Verif.Lemmas.WmptExport
 import Verif.Lemmas.WmptMarkPerm
@@ -71,23 +73,24 @@ theorem import_checks_root (H : Bytes → Bytes) (ps : List PairD) (r : WN) (h :
            subst h
            exact (Decidable.not_not.mp hne).symm)
 
-/-- the two collection strategies of GetPath below a branch root: same error; on success (for at least one key — with no
-    key the parallel strategy, which GetPath never takes then, would still set the root's mark) the same marked trie -/
+/-- the two collection strategies of GetPath below a branch root, for non-empty keys: same error; on success (for at least
+    one key — with no key the parallel strategy, which GetPath never takes then, would still set the root's mark) the same
+    marked trie.  (An empty key is marked at the root by the sequential strategy; the parallel one panics on it.) -/
 theorem mark_parallel_eq_sequential (hasDb : Bool) (s : Store) (h : Bytes) (ch : Nib → WN) (w : Nat) (d tc : Bool)
-    (keys : List (List Nib)) :
+    (keys : List (List Nib)) (hne : ∀ k ∈ keys, k ≠ []) :
     (markParallel hasDb s (.routing h ch w d tc) keys).err = (markAll hasDb s (.routing h ch w d tc) keys).err ∧
     ((markAll hasDb s (.routing h ch w d tc) keys).err = none → keys ≠ [] →
       (markParallel hasDb s (.routing h ch w d tc) keys).node = (markAll hasDb s (.routing h ch w d tc) keys).node) :=
-  Verif.Wmpt.mark_parallel_eq_sequential hasDb s h ch w d tc keys
+  Verif.Wmpt.mark_parallel_eq_sequential hasDb s h ch w d tc keys hne
 
-/-- `getPath` (which picks the strategy by the extracted threshold) answers like the purely sequential `getPathSeq`:
-    the same result in every case; on success the same trie state; after a failure the two states differ at most in the
-    export marks left in the root -/
-theorem getPath_strategy_irrelevant (H : Bytes → Bytes) (t : WT) (keys : List (List Nib)) :
+/-- `getPath` (which picks the strategy by the extracted threshold) answers, for non-empty keys, like the purely sequential
+    `getPathSeq`: the same result in every case; on success the same trie state; after a failure the two states differ at
+    most in the export marks left in the root -/
+theorem getPath_strategy_irrelevant (H : Bytes → Bytes) (t : WT) (keys : List (List Nib)) (hne : ∀ k ∈ keys, k ≠ []) :
     (getPath H t keys).2 = (getPathSeq H t keys).2 ∧
     (∀ data, (getPathSeq H t keys).2 = .ok data → getPath H t keys = getPathSeq H t keys) ∧
     (∀ n, { (getPath H t keys).1 with root := n } = { (getPathSeq H t keys).1 with root := n }) :=
-  Verif.Wmpt.getPath_strategy_irrelevant H t keys
+  Verif.Wmpt.getPath_strategy_irrelevant H t keys hne
 
 /-- the walks of the parallel strategy on different children of the root commute (the model runs them in list order, the
     Go code concurrently): swapping two adjacent successful walks with different first nibbles changes nothing -/
